@@ -175,11 +175,11 @@ impl<C: Check> DynCheck for Erased<C> {
 /// Execute one scenario; if a stand-in (remote shell, coreutils) met something it does not model,
 /// the run is a harness error, never a verdict.
 fn exec_guarded<C: Check>(c: &C, sc: &C::Sc) -> RunReport {
-    let _ = crate::stubs::take_unsupported();
+    let _ = copia_simworld::kernel::take_unsupported();
     let mut rep = c.execute(sc);
-    if let Some(what) = crate::stubs::take_unsupported() {
+    if let Some(what) = copia_simworld::kernel::take_unsupported() {
         rep.violation = None;
-        rep.harness_error = Some(format!("the remote-shell stand-in met something it does not model ({what}); no verdict"));
+        rep.harness_error = Some(format!("simulated code reached something the simulated world does not model ({what}); no verdict"));
     }
     rep
 }
